@@ -63,7 +63,7 @@ def hdr_decode(b: bytes, k: int, off: int) -> bool:
 def int_encode(vals: List[int], k: int) -> bool:
     """
     pre: 0 <= k < 8
-    pre: len(vals) <= 3
+    pre: len(vals) <= 4
     post: _
     """
     cls = pick(_INTS, k)
@@ -100,8 +100,8 @@ def int_scalar(v: int, k: int) -> bool:
 def int_decode(payload: bytes, k: int, n: int, stale: bool) -> bool:
     """
     pre: 0 <= k < 8
-    pre: 0 <= n <= 3
-    pre: len(payload) == 24
+    pre: 0 <= n <= 4
+    pre: len(payload) == 32
     post: _
     """
     cls = pick(_INTS, k)
@@ -353,17 +353,20 @@ OBLIGATIONS = [
          functions=["secsgem.secs.variables.base.Base.decode_item_header"],
          bounds="every format byte and 3 length bytes (4 symbolic bytes: all 1..3-length-byte forms incl. non-minimal and the "
                 "0-length-byte form), start offset 0..2, all 15 receiving classes"),
-    dict(name="int_encode", fn="int_encode", timeout=300, parts=["k == %d%s" % (i, " and len(vals) <= 2" if i in (3, 7) else "") for i in range(8)],
+    dict(name="int_encode", fn="int_encode", timeout=300, parts={"quick": ["k == %d and len(vals) <= %d" % (i, 2 if i in (3, 7) else 3) for i in range(8)],
+                "thorough": ["k == %d and len(vals) <= %d" % (i, 2 if i in (3, 7) else 3) for i in range(8)]
+                + ["k == %d and len(vals) == 4" % i for i in (0, 1, 2, 4, 5, 6)]},
          functions=["BaseNumber.__init__/set/_set_list/encode/get", "Base.encode_item_header", "struct.pack (patched model)"],
-         bounds="U1..U4, I1..I4: list of 0..3 unbounded symbolic ints; U8/I8: 0..2 (3 x 64-bit div/mod chains exceed the solver "
+         bounds="U1..U4, I1..I4: list of 0..3 (thorough 0..4) unbounded symbolic ints; U8/I8: 0..2 (3 x 64-bit div/mod chains exceed the solver "
                 "timeout); in range: bytes == reference and get() returns the value; out of range: ValueError",
          outside="lists longer than 3 (2 for 8-byte widths) elements"),
     dict(name="int_scalar", fn="int_scalar", timeout=120,
          functions=["BaseNumber.set scalar branch", "encode", "get"],
          bounds="U1..U8, I1..I8; one unbounded symbolic int"),
-    dict(name="int_decode", fn="int_decode", timeout=300,
+    dict(name="int_decode", fn="int_decode", timeout=600,
+         parts={"quick": ["n <= 3"], "thorough": ["n <= 3", "n == 4 and k < 4", "n == 4 and k >= 4"]},
          functions=["BaseNumber.decode", "Base.decode_item_header", "struct.unpack (patched model)", "BaseNumber.set"],
-         bounds="U1..U8, I1..I8; 0..3 elements of fresh symbolic payload bytes; fresh and previously used target object",
+         bounds="U1..U8, I1..I8; 0..3 (thorough 0..4) elements of fresh symbolic payload bytes; fresh and previously used target object",
          outside="more than 3 elements"),
     dict(name="str_encode", fn="str_encode", timeout=200, parts=["big == 0", "big == 1"],
          functions=["BaseText.set/encode/get (String, latin-1)"],
